@@ -334,6 +334,34 @@ impl TCheck for C08 {
         let workers = rng.range(1, 15);
         let max_blobs = rng.range(1, 6);
         let max_size = *rng.pick(&[256u64, 1024, 4096]);
+        // one work in sixteen has a run of zero-length compressible contents long enough to fill
+        // more whole clusters than the back-pressure limit allows in flight (clusters with nothing
+        // to compress still occupy a slot), followed by ordinary compressed clusters
+        let empty_run = work % 16 == 9 && comp != Comp::None && !one_cpu;
+        let (workers, max_blobs) = if empty_run { (rng.range(1, 2), rng.range(1, 3)) } else { (workers, max_blobs) };
+        if empty_run {
+            let at = rng.usize_below(contents.len() + 1);
+            let n_empty = (2 * workers * max_blobs + rng.range(1, 3) * max_blobs) as usize;
+            for k in 0..n_empty {
+                contents.insert(
+                    at,
+                    ContentSpec {
+                        bytes: Arc::new(vec![]),
+                        hint: Hint::Yes,
+                        src: if k % 3 == 0 { SrcKind::Sim } else { SrcKind::Cursor },
+                        pack: 1,
+                    },
+                );
+            }
+            for k in 0..3 {
+                contents.push(ContentSpec {
+                    bytes: Arc::new(gen::gen_bytes(&mut rng, 800 + k, 40 + 30 * k, Flavor::Text)),
+                    hint: Hint::Yes,
+                    src: SrcKind::Cursor,
+                    pack: 1,
+                });
+            }
+        }
         let mut knobs = vec![
             ("creator_workers", workers),
             ("cluster_max_blobs", max_blobs),
@@ -368,7 +396,7 @@ impl TCheck for C08 {
             dedup: false,
             hard_err_call,
         });
-        let desc = json!({"one_cpu_host_no_worker_knob": one_cpu, "big_incompressible_content": big, "hard_input_error_at_read_call": hard_err_call, "comp": comp.name(), "contents": w.contents.iter().map(|c| format!("{}{}{}", c.bytes.len(), match c.hint {Hint::Yes=>"Y",Hint::No=>"N",Hint::Detect=>"D"}, match c.src {SrcKind::Cursor=>"c",SrcKind::File=>"f",SrcKind::FileRange=>"r",SrcKind::Sim=>"s",SrcKind::FilePeeked=>"p",SrcKind::FileRangeToEnd=>"e"})).collect::<Vec<_>>(),
+        let desc = json!({"one_cpu_host_no_worker_knob": one_cpu, "run_of_empty_compressible_contents": empty_run, "big_incompressible_content": big, "hard_input_error_at_read_call": hard_err_call, "comp": comp.name(), "contents": w.contents.iter().map(|c| format!("{}{}{}", c.bytes.len(), match c.hint {Hint::Yes=>"Y",Hint::No=>"N",Hint::Detect=>"D"}, match c.src {SrcKind::Cursor=>"c",SrcKind::File=>"f",SrcKind::FileRange=>"r",SrcKind::Sim=>"s",SrcKind::FilePeeked=>"p",SrcKind::FileRangeToEnd=>"e"})).collect::<Vec<_>>(),
                           "workers": workers, "cluster_max_blobs": max_blobs, "cluster_max_size": max_size});
         let w2 = Arc::clone(&w);
         Prepared {
